@@ -389,15 +389,14 @@ bool HexStringToInt(const string &value, uint16_t *output) {
 }
 
 bool HexStringToInt(const string &value, uint32_t *output) {
-  if (value.empty()) {
+  uint64_t temp;
+  if (!HexStringToInt(value, &temp)) {
     return false;
   }
-
-  size_t found = value.find_first_not_of("ABCDEFabcdef0123456789");
-  if (found != string::npos) {
+  if (temp > UINT32_MAX) {
     return false;
   }
-  *output = strtoul(value.data(), NULL, 16);
+  *output = static_cast<uint32_t>(temp);
   return true;
 }
 
@@ -410,7 +409,14 @@ bool HexStringToInt(const string &value, uint64_t *output) {
   if (found != string::npos) {
     return false;
   }
-  *output = strtoull(value.data(), NULL, 16);
+  errno = 0;
+  unsigned long long l = strtoull(  // NOLINT(runtime/int)
+      value.data(), NULL, 16);
+  if (errno != 0) {
+    // ERANGE, the value doesn't fit in 64 bits
+    return false;
+  }
+  *output = static_cast<uint64_t>(l);
   return true;
 }
 
@@ -439,28 +445,24 @@ bool HexStringToInt(const string &value, int16_t *output) {
 }
 
 bool HexStringToInt(const string &value, int32_t *output) {
-  if (value.empty()) {
+  // As with the 8 and 16 bit versions, the text is the two's complement bit
+  // pattern, so ffffffff is -1.
+  uint32_t temp;
+  if (!HexStringToInt(value, &temp)) {
     return false;
   }
-
-  size_t found = value.find_first_not_of("ABCDEFabcdef0123456789");
-  if (found != string::npos) {
-    return false;
-  }
-  *output = strtoll(value.data(), NULL, 16);
+  *output = static_cast<int32_t>(temp);
   return true;
 }
 
 bool HexStringToInt(const string &value, int64_t *output) {
-  if (value.empty()) {
+  // As with the narrower versions, the text is the two's complement bit
+  // pattern, so ffffffffffffffff is -1.
+  uint64_t temp;
+  if (!HexStringToInt(value, &temp)) {
     return false;
   }
-
-  size_t found = value.find_first_not_of("ABCDEFabcdef0123456789");
-  if (found != string::npos) {
-    return false;
-  }
-  *output = strtoll(value.data(), NULL, 16);
+  *output = static_cast<int64_t>(temp);
   return true;
 }
 
